@@ -574,6 +574,10 @@ fn c14_run(case: &mut Case, rng: &mut Rng) {
                 _ => case.ctl(&format!("setgmaxlat {}", case.cfg.minlat_ms + rng.range(0, 30))),
             }
         }
+        if rng.chance(1, 12) {
+            // the curve changes the shape of the distribution, never the range
+            case.ctl(&format!("setcurve {}", *rng.pick(&["0.1", "0.8", "1.0", "3.0"])));
+        }
         // receive first (phase A), then possibly move inside the window, then send a burst
         tr.recv_all(case, 10);
         for h in 0..hosts {
@@ -1577,7 +1581,10 @@ fn c04_run(case: &mut Case, rng: &mut Rng) {
     }
     case.ctl("q h1 countof h0");
     case.ctl("step");
+    case.ctl("isrunning h0");
     case.ctl("crash h0");
+    case.ctl("isrunning h0");
+    case.ctl("isrunning h1");
     crashed = true;
     let _ = crashed;
     // while it is down: peers keep going, others look at its tables, traffic keeps arriving
@@ -1618,6 +1625,7 @@ fn c04_run(case: &mut Case, rng: &mut Rng) {
         case.ctl("crash h0"); // crashing a crashed host is a no-op
     }
     case.ctl("bounce h0");
+    case.ctl("isrunning h0");
     if workload == 3 {
         case.ctl(&format!("q h1 udp_send s0 mc0:9000 {}", hex(&[0x03, 0x20])));
     }
